@@ -209,6 +209,84 @@ def sym(ctx, cfg):
     return PathOutcome(props, inputs, out)
 
 
+SCORE_NAMES = ["xcorr", "deltacn", "Percolator q-Value"]
+
+
+def _files_doc(bits_f, fi):
+    """one run / one spectrum / one hit per file; the hit carries the scores whose bit is set"""
+    return dict(runs=[dict(base_name="file%d" % fi, raw_data=".mzML", spectra=[dict(
+        end_scan=str(10 + fi), precursor_neutral_mass="1000.5", assumed_charge="2", retention_time_sec="12.5",
+        hits=[dict(peptide="PEPTIDEK", protein="PROT%d" % fi, calc_neutral_pep_mass="1000.25", opt={}, alts=[], mods=[],
+                   scores=[dict(name=n, value=str(1.5 + j + fi)) for j, n in enumerate(SCORE_NAMES) if bits_f[j]])])])])
+
+
+def _files_verdict(bits, outcome):
+    """-> violation text or None. bits[f][j]: file f carries score j; outcome: ('error', text) | ('ok', columns, nrows)"""
+    perc = any(b[2] for b in bits)
+    if outcome[0] == "error":
+        if perc and "Percolator" in outcome[1]:
+            return None
+        return "read_pepxml raised %s for files with scores %s" % (outcome[1], [[n for n, b in zip(SCORE_NAMES, bf) if b] for bf in bits])
+    cols, nrows = outcome[1], outcome[2]
+    if perc:
+        return "results produced by Percolator (score 'Percolator q-Value' in one of the files) were accepted: scores per file %s" % [[n for n, b in zip(SCORE_NAMES, bf) if b] for bf in bits]
+    if nrows != len(bits):
+        return "%d PSMs for %d search hits in %d files" % (nrows, len(bits), len(bits))
+    for j, n in enumerate(SCORE_NAMES[:2]):
+        if any(b[j] for b in bits) and n not in cols:
+            return "search score %r (present in file(s) %s) is not among the columns %s" % (n, [f for f, b in enumerate(bits) if b[j]], list(cols))
+    return None
+
+
+def _files_run(read_pepxml, bits):
+    import tempfile
+    paths = []
+    with tempfile.TemporaryDirectory(prefix="verif_c20f_") as d:
+        for fi, bf in enumerate(bits):
+            p = os.path.join(d, "f%d.pep.xml" % fi)
+            open(p, "w").write(_xml(_files_doc(bf, fi)))
+            paths.append(p)
+        try:
+            df = read_pepxml(paths, decoy_prefix=PREFIX, to_df=True)
+        except Exception as ex:
+            return ("error", "%s: %s" % (type(ex).__name__, str(ex)[:80]))
+        return ("ok", [str(c) for c in df.columns], len(df))
+
+
+def sym_files(ctx, cfg):
+    """Several files with DIFFERENT sets of search scores (one of them possibly Percolator's): the frame-level
+    part of read_pepxml (concatenation, rejection of Percolator results, feature columns) runs natively on
+    real files; which file carries which score is decided by the solver (a bounded-exhaustive walk over the
+    presence bits, as the property's own quantifier asks)."""
+    import z3
+    from symx.core import SBool, PathOutcome
+    X = setup()
+    F = cfg["files"]
+    zb = [[z3.Bool("file%d_has_%d" % (f, j)) for j in range(len(SCORE_NAMES))] for f in range(F)]
+    for f in range(F):
+        ctx.assume(z3.Or(zb[f][0], zb[f][1]))  # every hit has at least one ordinary search score
+    bits = [[bool(SBool(z)) for z in row] for row in zb]
+    inputs = dict(bits=bits)
+    import builtins
+    saved = {k: X.__dict__.get(k) for k in ("int", "float", "len")}
+    X.int, X.float, X.len = builtins.int, builtins.float, builtins.len  # this harness runs natively: no token strings
+    try:
+        outcome = _files_run(X.read_pepxml, bits)
+    finally:
+        for k, v_ in saved.items():
+            if v_ is not None:
+                X.__dict__[k] = v_
+    v = _files_verdict(bits, outcome)
+    return PathOutcome([("several_files_concatenated_scores_kept_percolator_rejected" + (": " + v if v else ""), z3.BoolVal(v is None))], inputs, None)
+
+
+def real_files(cfg, inp):
+    import mokapot
+    bits = [[bool(x) for x in row] for row in inp["bits"]]
+    v = _files_verdict(bits, _files_run(mokapot.read_pepxml, bits))
+    return dict(outputs=None, violation=v)
+
+
 def harnesses(tier):
     from symx.runner import Harness
     X = setup()
@@ -224,6 +302,9 @@ def harnesses(tier):
     add("hit[L=2,mods<=2,alts<=1,optional attrs]", dict(L=2, mods=2, alts=1, shape=[[1]], optional=True))
     add("hit[L=4,mods<=3,alts=0,empty modinfo]", dict(L=4, mods=3, alts=0, shape=[[1]], empty_modinfo=True))
     add("doc[2 runs: 2+1 spectra, hits 2,1,1; L=2,mods<=1,alts<=1]", dict(L=2, mods=1, alts=1, shape=[[2, 1], [1]], rich=[1]))
+    for F in ((2,) if tier == "quick" else (2, 3)):
+        hs.append(Harness("files[%d files with different score sets]" % F, dict(files=F), sym_files, real="files", functions=[X.read_pepxml, X._parse_pepxml], bounds=dict(files=F, scores=SCORE_NAMES),
+                          stubs=["none: real lxml / pandas on real temporary files; the solver only decides which file carries which score"], assumptions=["one run, one spectrum, one hit per file"], sample_rate=0.2))
     if tier == "thorough":
         add("hit[L=5,mods<=3,alts<=3]", dict(L=5, mods=3, alts=3, shape=[[1]], descr=True))
         add("doc[2x2x2 hits; L=2,mods<=1,alts<=1]", dict(L=2, mods=1, alts=1, shape=[[2, 2], [2, 2]], rich=[2, 5]))
@@ -332,4 +413,4 @@ def real_pepxml(cfg, inp):
     return dict(outputs=out, violation=viol)
 
 
-REAL = {"pepxml": real_pepxml}
+REAL = {"pepxml": real_pepxml, "files": real_files}
